@@ -244,6 +244,38 @@ def _dispatch(fn, a):  # noqa: ANN001
     return fn(*a)
 
 
+def shard_paused_cancel(prop: str, tier: str, seed: int, name: str) -> dict[str, Any]:
+    """The operator pauses the workflow (before every delivery position), the engine goes quiet, then the cancel arrives: a paused
+    workflow is cancelable like any other - nothing executes afterwards and it ends in a final status."""
+    from vlib.engine_d import Schedule, inj_pause
+
+    c = Campaign(prop, tier, seed, LEVEL)
+    spec = core_corpus()[name]
+    steps = Run(spec, Schedule()).drain().steps
+    for at in range(steps + 1):
+        tasks.reset_ledger()
+        run = Run(spec, Schedule())
+        run.injections.setdefault(at, []).append(inj_pause())
+        run.drain()
+        paused = run.workflow().status.name == "PAUSED"
+        before = len(tasks.LEDGER)
+        inj_cancel()(run)
+        run.drain()
+        got = run.outcome()
+        case = {"kind": "paused-cancel", "spec": spec, "pause_at": at}
+        if paused:
+            if got["workflow"] not in oracles.COMPLETE:
+                c.violation("not-final-after-cancel|paused", case, f"the workflow was PAUSED when the cancel was processed and is {got['workflow']} at quiescence; stages {got['stages']}")
+            if len(tasks.LEDGER) > before:
+                c.violation("task-started-after-cancel|paused", case, f"{len(tasks.LEDGER) - before} task execution(s) after the cancel of the paused workflow")
+            left = {k: v for k, v in got["stages"].items() if v in ("RUNNING", "PAUSED", "SUSPENDED")}
+            if left and got["workflow"] in oracles.COMPLETE:
+                c.violation("stage-left-unfinished-after-cancel|paused", case, f"workflow {got['workflow']} but {left}")
+        c.case(("c17p", name, at), paused, ["paused-cancel", "paused" if paused else "pause-not-applied"],
+               sample={"spec": name, "pause_at": at, "workflow": got["workflow"]} if paused and at % 5 == 2 else None)
+    return c.export()
+
+
 def shard_race(prop: str, tier: str, seed: int, which: str) -> dict[str, Any]:
     """The CancelWorkflow handler interleaved at statement level with the handler that writes the workflow row next to it
     (StartWorkflow): whatever the interleaving, once both are through the cancel has been processed - nothing executes afterwards
@@ -288,6 +320,7 @@ def run(c: Campaign, jobs: int) -> None:
     args = [(shard_random, (c.prop, c.tier, c.seed * 1000 + k, max(1, n // shards))) for k in range(shards)]
     args += [(shard_sweep, (c.prop, c.tier, c.seed, name)) for name in sweep_specs()]
     args += [(shard_race, (c.prop, c.tier, c.seed, which)) for which in ("cancel-vs-startworkflow",)]
+    args += [(shard_paused_cancel, (c.prop, c.tier, c.seed, name)) for name in ("chain", "diamond", "multitask", "poll", "before", "loop2")]
     run_shards(c, _dispatch, args, jobs)
     c.exhaustive_parts.append("CancelWorkflow interleaved with StartWorkflow at statement level: all schedules with <= 2 pre-emptions (thorough 3)")
     c.exhaustive_parts.append("cancel before every delivery position of the FIFO run and of two hold-back schedules (CancelStage / CancelWorkflow held) of 25 fixed specs")
@@ -299,13 +332,16 @@ def run(c: Campaign, jobs: int) -> None:
         "synthetic children's final statuses are not judged, their executions after the accept step are",
         "single worker thread, except the CancelWorkflow / StartWorkflow race (two workers, harness-owned schedule); SQLite only",
     ]
-    for cls in ("race", "accepted", "feat:jump", "feat:poll", "feat:suspend", "feat:after-child", "feat:continue-on-failure", "style:hold"):
+    for cls in ("race", "paused-cancel", "accepted", "feat:jump", "feat:poll", "feat:suspend", "feat:after-child", "feat:continue-on-failure", "style:hold"):
         if c.classes.get(cls, 0) == 0:
             c.harness_error(f"generator starvation: class {cls} never produced")
 
 
 def regress(c: Campaign, rec: dict[str, Any]) -> None:
     case = rec["case"]
+    if case.get("kind") == "paused-cancel":
+        c.merge(shard_paused_cancel(c.prop, c.tier, c.seed, case["spec"]["name"]))
+        return
     if case.get("kind") == "race":
         c.merge(shard_race(c.prop, c.tier, c.seed, case["scenario"]))
         return
